@@ -43,6 +43,8 @@ structure Case where
   body : Option Block := none
   /-- stage S4: FUNCTIONs and the body as an extended block (used when `funcs` is non-empty) -/
   funcs : List FuncDef := []
+  fbs : List FbDef := []
+  insts : List (String × String) := []
   xbody : Option XBlock := none
   verdict : Option String := none     -- impl answer to `check`
   steps : List Step := []             -- reversed while reading
@@ -56,7 +58,7 @@ def Case.program (c : Case) : Option Program :=
   c.body.map fun b => { decls := c.decls, body := b }
 
 def Case.xprogram (c : Case) : Option XProgram :=
-  c.xbody.map fun b => { funcs := c.funcs, decls := c.decls, body := b }
+  c.xbody.map fun b => { funcs := c.funcs, fbs := c.fbs, insts := c.insts, decls := c.decls, body := b }
 
 def applySetsX (rs : XRunState) (sets : List (String × Val)) : XRunState :=
   sets.foldl (fun rs (x, v) => { rs with store := { rs.store with vars := insert x v rs.store.vars } }) rs
@@ -67,7 +69,9 @@ def runModelX (p : XProgram) (steps : List Step) : List (CycleOut × Env × Nat)
     | [] => []
     | s :: rest =>
       let (rs', o) := xcycle p fuel (applySetsX rs s.sets)
-      (o, rs'.store.vars, rs'.store.frames.length) :: go rs' rest
+      -- the dump: the PROGRAM's variables, then every FB instance's variables as `inst.var`
+      let flat : Env := rs'.store.insts.flatMap fun (c, e) => e.map fun (x, v) => (c ++ "." ++ x, v)
+      (o, rs'.store.vars ++ flat, rs'.store.frames.length) :: go rs' rest
   go { store := p.initStore } steps
 
 def readLine (c : Case) (line : String) : Case :=
@@ -85,8 +89,13 @@ def readLine (c : Case) (line : String) : Case :=
     match parseFunc? toks with
     | some f => { c with funcs := c.funcs ++ [f] }
     | none => { c with bad := true }
+  | "fb" :: toks =>
+    match parseFb? toks with
+    | some f => { c with fbs := c.fbs ++ [f] }
+    | none => { c with bad := true }
+  | ["inst", v, t] => { c with insts := c.insts ++ [(v, t)] }
   | "body" :: toks =>
-    if c.funcs.isEmpty then
+    if c.funcs.isEmpty && c.fbs.isEmpty then
       match parseBlock? toks with
       | some b => { c with body := some b }
       | none => { c with bad := true }
@@ -290,7 +299,12 @@ def oraclePassX (c : Case) (p : XProgram) : String :=
   let impl := implO.filterMap id
   let model := runModelX p steps
   let c01 := firstNotOk (c01go false impl model)
-  let ctx : Ctx := p.decls.map fun d => (d.name, d.ty)
+  -- declared types: the PROGRAM's variables and, per FB instance, the FB's parameters and VARs
+  let ctx : Ctx := (p.decls.map fun d => (d.name, d.ty)) ++
+    p.insts.flatMap fun (c, t) =>
+      match findFb p.fbs t with
+      | none => []
+      | some fb => (fb.params.map fun q => (c ++ "." ++ q.name, q.ty)) ++ (fb.vars.map fun l => (c ++ "." ++ l.name, l.ty))
   let c03s := impl.map fun ic =>
     if ic.otherTags then "foreign-value" else
     match firstBadSlot ctx ic.env with
